@@ -390,7 +390,10 @@ def nested_plan(draw, thorough=False, layouts=("3level",), allow_v2=True, allow_
                 for pi in range(npages):
                     pn = None if pi == npages - 1 else draw(st.integers(0, max(0, left)))
                     page = {"n": pn, "version": version, "encoding": enc}
-                    if enc != "PLAIN":
+                    if enc != "PLAIN" and pi > 0 and not v2_working and (pages[-1]["encoding"] == "PLAIN" or draw(st.integers(0, 3)) == 0):
+                        # dictionary fallback: once a writer gives up its dictionary the rest of the chunk is PLAIN
+                        page["encoding"] = "PLAIN"
+                    if page["encoding"] != "PLAIN":
                         page["bit_width"] = draw(st.one_of(st.none(), st.integers(0, 12)))
                     if draw(st.integers(0, 2)) == 0:
                         page["def_runs"] = draw(run_plan(left if pn is None else pn))
